@@ -135,7 +135,7 @@ class ShardsList(BaseModel):
         Returns: the original path `v`.
 
         Raises: ValueError in case the file name is not `shards_list.json` or
-        if there is ".." in the path.
+        if there is ".." in the path or the path is absolute.
         """
         if v.name != "shards_list.json":
             raise ValueError(f"The name must be \"shards_list.json\", got "
@@ -143,6 +143,9 @@ class ShardsList(BaseModel):
         if ".." in v.parts:
             raise ValueError("A .. is present in the path which could allow "
                              "directory traversal above `dataset_root_path`.")
+        if v.is_absolute():
+            raise ValueError("An absolute path is not relative to "
+                             "`dataset_root_path`.")
         return v
 
     def write_config(self, dataset_root_path: Path,
